@@ -174,6 +174,16 @@ theorem machine_memory_is_whole_mib :
     (∀ e ∈ gcpMachineTypes, e.2.2.2.2.1 % (1024 * 1024) = 0) ∧ (∀ e ∈ azureMachineTypes, e.2.2.2 % (1024 * 1024) = 0) := by
   decide +kernel
 
+/-- the memory of every machine type a pool can run on (family = `GCP_MACHINE_FAMILY`, a worker type with a memory-per-core entry;
+every azure type) is exactly cores × memory per core of its worker type — what the front end grants per core.  So a full packing
+of jobs as provisioned by the front end (C12: `memory = cpu × per core / 1000`) holds exactly the instance memory, and
+`packing_le_whole` applies to it. -/
+theorem pool_machine_memory_is_cores_times_granted_per_core :
+    (∀ e ∈ gcpMachineTypes, e.2.1 = gcpMachineFamily →
+      ∀ pc, gcpMemoryPerCoreMiB.lookup (gcpMachineFamily, e.2.2.1) = some pc → e.2.2.2.2.1 = e.2.2.2.1 * (pc * 1024 ^ 2)) ∧
+    (∀ e ∈ azureMachineTypes, ∀ pc, azureMemoryPerCoreMiB.lookup e.2.1 = some pc → e.2.2.2 = e.2.2.1 * (pc * 1024 ^ 2)) := by
+  decide +kernel
+
 /-- OBSERVATION (not part of the property): `gcp_valid_cores_for_pool_worker_type` and
 `azure_valid_cores_from_worker_type` admit pool workers whose core count is not a power of two (96; 20, 48, 72).
 For such a pool (`job_private = False`) `quantified_resources` trips its own assert `is_power_two(self.cores)`,
